@@ -164,8 +164,33 @@ class ClassInfo(object):
         return '<Class %s>' % self.fq
 
 
+_RAW_SIG_CACHE = {}
+
+
+def _effective_signatures(sources):
+    """Recorded signatures that the current tree still has."""
+    from . import alpha, tablenorm
+    rec = alpha.table().get('__signatures__') or {}
+    if not rec or os.environ.get('VERIF_NO_ALPHA'):
+        return {}
+    trees = []
+    for name, rel, src in sources:
+        k = (rel, hash(src), len(src))
+        t = _RAW_SIG_CACHE.get(k)
+        if t is None:
+            try:
+                t = ast.parse(src, filename=rel)
+            except SyntaxError as e:
+                raise AnalysisError('parse:' + rel, str(e))
+            # keep only what signature_table reads
+            _RAW_SIG_CACHE[k] = t
+        trees.append(t)
+    cur = tablenorm.signature_table(trees)
+    return {k: v for k, v in rec.items() if cur.get(k) == v}
+
+
 class Module(object):
-    def __init__(self, name, relpath, source):
+    def __init__(self, name, relpath, source, sigs=None):
         self.name = name
         self.relpath = relpath
         self.source = source
@@ -184,7 +209,8 @@ class Module(object):
             # table-driven rewrites are spelled out again (sa/tablenorm.py)
             tablenorm.inline_new_consts(tree, rec.get('__consts__'))
             tablenorm.kw_to_positional(
-                tree, alpha.table().get('__signatures__'))
+                tree, sigs if sigs is not None
+                else alpha.table().get('__signatures__'))
         self.renamed_locals = alpha.normalise(tree, relpath)
         if not os.environ.get('VERIF_NO_ALPHA'):
             tablenorm.unroll(tree, relpath)
@@ -318,6 +344,7 @@ class Program(object):
         root = os.path.join(self.repo, PKG)
         if not os.path.isdir(root):
             raise AnalysisError('repo', '%s not found' % root)
+        sources = []
         for dirpath, dirnames, filenames in os.walk(root):
             rel_dir = os.path.relpath(dirpath, self.repo)
             if any(rel_dir == d or rel_dir.startswith(d + os.sep)
@@ -339,12 +366,18 @@ class Program(object):
                 name = rel[:-3].replace(os.sep, '.')
                 if name.endswith('.__init__'):
                     name = name[:-9]
-                key = (rel, hash(src), len(src))
-                m = _PARSE_CACHE.get(key)
-                if m is None:
-                    m = _PARSE_CACHE[key] = Module(name, rel, src)
-                self.modules[name] = m
-                self.by_path[rel] = m
+                sources.append((name, rel, src))
+        # keyword arguments are made positional only for callees whose
+        # signature is still the recorded one (sa/tablenorm.py)
+        sigs = _effective_signatures(sources)
+        sig_key = hash(tuple(sorted((k, tuple(v)) for k, v in sigs.items())))
+        for name, rel, src in sources:
+            key = (rel, hash(src), len(src), sig_key)
+            m = _PARSE_CACHE.get(key)
+            if m is None:
+                m = _PARSE_CACHE[key] = Module(name, rel, src, sigs)
+            self.modules[name] = m
+            self.by_path[rel] = m
 
     # -- name resolution --------------------------------------------------
     def resolve_fq(self, fq, _depth=0):
